@@ -184,18 +184,21 @@ Definition ok_stream (k : bytes) (q : request) : sstream :=
 
 Lemma handle_cases s now q wc :
   (exists s1 e w k,
-      srv_lookup s now (q_sid q) = (s1, Some (e, w)) /\ usable_key e = Some k /\
+      srv_lookup s now (q_sid q) = (s1, Some (e, w)) /\ is_client_side e = false /\ usable_key e = Some k /\
       handle_resumption s now q wc =
         (srv_store s1 w (renew_lease e now), ok_reply q, SOk (ok_neg e q wc) (ok_stream k q)))
   \/ (handle_resumption s now q wc =
         (fst (srv_lookup s now (q_sid q)), (if q_want_reply q then ReplySidNotFound else NoReply), SErr)
       /\ (snd (srv_lookup s now (q_sid q)) = None \/
-          exists e w, snd (srv_lookup s now (q_sid q)) = Some (e, w) /\ usable_key e = None)).
+          exists e w, snd (srv_lookup s now (q_sid q)) = Some (e, w) /\
+                      (is_client_side e = true \/ usable_key e = None))).
 Proof.
   unfold handle_resumption. destruct (srv_lookup s now (q_sid q)) as [s1 [[e w]|]] eqn:L.
-  - destruct (usable_key e) as [k|] eqn:U.
-    + left. exists s1, e, w, k. repeat split; auto.
+  - destruct (is_client_side e) eqn:CS.
     + right. cbn [fst snd]. split; [reflexivity|]. right. exists e, w. auto.
+    + destruct (usable_key e) as [k|] eqn:U.
+      * left. exists s1, e, w, k. repeat split; auto.
+      * right. cbn [fst snd]. split; [reflexivity|]. right. exists e, w. auto.
   - right. cbn [fst snd]. split; [reflexivity|]. left. reflexivity.
 Qed.
 
@@ -205,6 +208,8 @@ Lemma needs_key s now q wc s' rep n st :
   exists e w k ki,
     (* the entry is present in one of the server's caches and not expired *)
     find_sess (q_sid q) (c_sessions (cache_at s w)) = Some e /\ is_expired e now = false /\
+    (* it is not the client-side record of a session this process negotiated with another server *)
+    is_client_side e = false /\
     (* it has a key, an AES-GCM key of 32 bytes *)
     e_key e = Some ki /\ k_data ki = k /\ is_aesgcm (k_proto ki) = true /\ lenN k = 32%N /\
     (* the stream is encrypting with exactly that key when the handshake returns *)
@@ -216,7 +221,7 @@ Lemma needs_key s now q wc s' rep n st :
     (forall hdr iv p, exists c, srv_send st hdr iv p = WSealed hdr iv c /\
        forall k' n' a' p', open k' n' a' c = Some p' -> k' = k).
 Proof.
-  intro E. destruct (handle_cases s now q wc) as [(s1 & e & w & k & L & U & E')|[E' _]]; [|congruence].
+  intro E. destruct (handle_cases s now q wc) as [(s1 & e & w & k & L & CS & U & E')|[E' _]]; [|congruence].
   rewrite E' in E. inversion E; subst.
   apply srv_lookup_some in L as (F & X & _). apply usable_key_inv in U as (ki & K1 & K2 & K3 & K4).
   exists e, w, k, ki. repeat split; auto.
@@ -233,7 +238,17 @@ Lemma keyless_never s now q wc e w :
   handle_resumption s now q wc =
     (fst (srv_lookup s now (q_sid q)), (if q_want_reply q then ReplySidNotFound else NoReply), SErr).
 Proof.
-  intros L U. destruct (handle_cases s now q wc) as [(s1 & e' & w' & k & L' & U' & _)|[E _]]; [|exact E].
+  intros L U. destruct (handle_cases s now q wc) as [(s1 & e' & w' & k & L' & CS' & U' & _)|[E _]]; [|exact E].
+  rewrite L' in L. cbn [snd] in L. inversion L; subst. congruence.
+Qed.
+
+(* nor is the client-side record of a session this process negotiated elsewhere *)
+Lemma client_side_never s now q wc e w :
+  snd (srv_lookup s now (q_sid q)) = Some (e, w) -> is_client_side e = true ->
+  handle_resumption s now q wc =
+    (fst (srv_lookup s now (q_sid q)), (if q_want_reply q then ReplySidNotFound else NoReply), SErr).
+Proof.
+  intros L U. destruct (handle_cases s now q wc) as [(s1 & e' & w' & k & L' & CS' & U' & _)|[E _]]; [|exact E].
   rewrite L' in L. cbn [snd] in L. inversion L; subst. congruence.
 Qed.
 
@@ -265,7 +280,7 @@ Proof.
   - cbn [fst snd]. split; [|intros o []]. apply dead_set; [exact D|].
     apply dead_in_store_new; [apply (Hn en w); left; reflexivity|apply dead_cache_at; exact D].
   - destruct (handle_resumption s now q wc) as [[s' rep] res] eqn:E. cbn [fst snd]. split.
-    + destruct (handle_cases s now q wc) as [(s1 & e & w & k & L & U & E')|[E' _]]; rewrite E' in E; inversion E; subst.
+    + destruct (handle_cases s now q wc) as [(s1 & e & w & k & L & CS & U & E')|[E' _]]; rewrite E' in E; inversion E; subst.
       * pose proof (dead_after_lookup s now sid (q_sid q) D) as D1. rewrite L in D1. cbn [fst] in D1.
         apply dead_srv_store; [|exact D1]. rewrite e_id_renew_lease.
         apply srv_lookup_some in L as (F & X & _). apply find_sess_some in F as [F1 F2].
@@ -289,7 +304,7 @@ Proof.
     apply (dead_in_incl (cache_at s w)); [apply sweep_incl|apply dead_cache_at; exact D].
   - destruct (handle_resumption s now q wc) as [[s' rep] res] eqn:E. cbn [fst snd]. split.
     + apply dead_inv_all.
-      destruct (handle_cases s now q wc) as [(s1 & e & w & k & L & U & E')|[E' _]]; rewrite E' in E; inversion E; subst.
+      destruct (handle_cases s now q wc) as [(s1 & e & w & k & L & CS & U & E')|[E' _]]; rewrite E' in E; inversion E; subst.
       * pose proof (dead_after_lookup s now sid (q_sid q) D) as D1. rewrite L in D1. cbn [fst] in D1.
         apply dead_srv_store; [|exact D1]. rewrite e_id_renew_lease.
         apply srv_lookup_some in L as (F & X & _). apply find_sess_some in F as [F1 F2].
@@ -402,7 +417,7 @@ Lemma srv_ok_step st ev : srv_ok (fst st) -> srv_ok (fst (fst (sstep st ev))).
 Proof.
   destruct st as [s now]. cbn [fst]. intro K. destruct ev as [en w|q wc|sid' w|dt|sid' w|w|q wc inv]; cbn [sstep].
   - cbn [fst]. apply srv_ok_set; [exact K|]. apply sessions_ok_store_new, srv_ok_cache_at, K.
-  - destruct (handle_cases s now q wc) as [(s1 & e & w & k & L & U & E')|[E' _]]; rewrite E'; cbn [fst].
+  - destruct (handle_cases s now q wc) as [(s1 & e & w & k & L & CS & U & E')|[E' _]]; rewrite E'; cbn [fst].
     + apply srv_ok_store. pose proof (srv_ok_lookup s now (q_sid q) K) as K1. rewrite L in K1. exact K1.
     + apply srv_ok_lookup. exact K.
   - destruct (lookup (cache_at s w) now sid'); cbn [fst]; [|exact K].
@@ -411,7 +426,7 @@ Proof.
   - cbn [fst]. apply srv_ok_set; [exact K|]. apply sessions_ok_invalidate, srv_ok_cache_at, K.
   - cbn [fst]. apply srv_ok_set; [exact K|]. apply sessions_ok_sweep, srv_ok_cache_at, K.
   - destruct (handle_resumption s now q wc) as [[s' rep] res] eqn:E. cbn [fst]. apply srv_ok_inv_all.
-    destruct (handle_cases s now q wc) as [(s1 & e & w & k & L & U & E')|[E' _]]; rewrite E' in E; inversion E; subst.
+    destruct (handle_cases s now q wc) as [(s1 & e & w & k & L & CS & U & E')|[E' _]]; rewrite E' in E; inversion E; subst.
     + apply srv_ok_store. pose proof (srv_ok_lookup s now (q_sid q) K) as K1. rewrite L in K1. exact K1.
     + apply srv_ok_lookup. exact K.
 Qed.
@@ -455,7 +470,7 @@ Lemma same_session s now q wc s' rep n st c ce p :
        snd (resume_session c now ce p) = OResumed (e_id ce) (e_key ce) (pol_get ce p_user)
        /\ usable_key ce = Some k).
 Proof.
-  intro E. destruct (handle_cases s now q wc) as [(s1 & e & w & k & L & U & E')|[E' _]]; [|congruence].
+  intro E. destruct (handle_cases s now q wc) as [(s1 & e & w & k & L & CS & U & E')|[E' _]]; [|congruence].
   rewrite E' in E. inversion E; subst. apply srv_lookup_some in L as (F & X & _).
   exists e, w, k. repeat split; auto.
   - unfold resume_session. rewrite H0. cbn [snd]. unfold pol_get. reflexivity.
